@@ -569,20 +569,63 @@ Proof.
   intros (ts & _ & _ & _ & ->). rewrite iter_all_types; [exact I|]. pose proof (length_flat_ge ts). lia.
 Qed.
 
+(* the slice fast path (Vec<E>, Cow<[E]>, &[u8]): unmarshal_slice_bytes reads the length field n, checks it against 2^26, skips the
+   padding, checks n mod alignment and that n bytes are really there; copy_slice_bytes then asks for Vec::with_capacity(n / alignment)
+   and the result has exactly that many elements. So the request is determined by the length field and bounded by the bytes present. *)
+Lemma chunks_length b k : (0 < k)%nat -> forall fuel l m, (length l < fuel)%nat -> length l = (m * k)%nat ->
+  length (chunks b k fuel l) = m.
+Proof.
+  intros Hk. induction fuel as [|f IH]; intros l m Hf Hl; [lia|]. cbn [chunks].
+  destruct l as [|y l']; [cbn [length] in Hl; destruct m; [reflexivity|cbn in Hl; lia]|].
+  set (l := y :: l') in *. destruct m as [|m]; [cbn [length] in Hl; subst l; cbn in Hl; lia|].
+  cbn [length]. f_equal. apply IH.
+  - rewrite skipn_length. subst l. cbn [length] in *. lia.
+  - rewrite skipn_length. lia.
+Qed.
+
+Lemma u_read_len_field be c r : uoff c <= len (ubuf c) -> u_read_fixed be 4 c = Ok r ->
+  fst r = dec be (slice (ubuf c) (len_pos (uoff c)) 4) /\ snd r = set_off c (len_pos (uoff c) + 4) /\ len_pos (uoff c) + 4 <= len (ubuf c).
+Proof.
+  intros Ho. unfold u_read_fixed. change (Nat.eqb 4 1) with false. cbv iota. change (N.of_nat 4) with 4.
+  destruct (u_align_cases 4 c ltac:(lia) Ho) as [-> | ->]; [|discriminate]. cbn [bind].
+  unfold remainder_len. cbn [set_off ubuf uoff]. fold (len_pos (uoff c)).
+  destruct (N.ltb_spec (len (ubuf c) - len_pos (uoff c)) 4) as [|Hl]; [discriminate|]. intros E. injection E as <-.
+  cbn [fst snd]. unfold len_pos in *. repeat split; lia.
+Qed.
+
 Theorem slice_alloc_bound : forall be vf x c v c', valid_slice be (erase x) = true -> uoff c <= len (ubuf c) ->
   unmarshal_t (S vf) be (EArray x) c = Ok (v, c') ->
-  exists n, n <= MAX_ARRAY /\ uoff c + 4 + n <= uoff c' /\ uoff c' <= len (ubuf c).
+  let n := dec be (slice (ubuf c) (len_pos (uoff c)) 4) in
+  let start := len_pos (uoff c) + 4 + padlen (ealign x) (len_pos (uoff c) + 4) in
+  n <= MAX_ARRAY /\ n mod ealign x = 0 /\ uoff c' = start + n /\ start + n <= len (ubuf c)
+  /\ exists vs, v = VArray (erase x) vs /\ len vs = n / ealign x.
 Proof.
-  intros be vf x c v c' Hs Ho H. rewrite unmarshal_t_S_array, Hs in H.
-  pose proof (u_read_fixed_moved be 4 c Ho) as G1.
-  destruct (u_read_fixed be 4 c) as [r| | | |]; cbn [bind] in H; try discriminate. destruct G1 as [[E1 H1] H1'].
-  unfold check_array_len in H. destruct (N.ltb_spec MAX_ARRAY (fst r)) as [|Hn]; cbn [bind] in H; [discriminate|].
-  assert (Hr : uoff (snd r) <= len (ubuf (snd r))) by (rewrite E1; cbn [set_off ubuf uoff]; lia).
-  pose proof (u_align_moved (ealign x) (snd r) Hr) as G2.
-  destruct (u_align (ealign x) (snd r)) as [c1| | | |]; cbn [bind] in H; try discriminate. destruct G2 as [E2 H2].
-  destruct (negb _); [discriminate|]. unfold remainder_len in H.
-  destruct (N.ltb_spec (len (ubuf c1) - uoff c1) (fst r)) as [|Hrem]; [discriminate|].
-  destruct (erase x); try discriminate. injection H as _ <-. exists (fst r). cbn [set_off uoff].
-  change (N.of_nat 4) with 4 in H1'. rewrite E2, E1 in Hrem. rewrite E1 in H2. cbn [set_off ubuf uoff] in *.
-  split; [exact Hn|]. lia.
+  intros be vf x c v c' Hs Ho H n start. rewrite unmarshal_t_S_array, Hs in H.
+  destruct (u_read_fixed be 4 c) as [r| | | |] eqn:E1; cbn [bind] in H; try discriminate.
+  destruct (u_read_len_field be c r Ho E1) as (En & Er & Hl). fold n in En.
+  unfold check_array_len in H. rewrite En in H. destruct (N.ltb_spec MAX_ARRAY n) as [|Hn]; cbn [bind] in H; [discriminate|].
+  destruct (valid_slice_inv _ _ Hs) as (b & Eb & Htx & Hnfd & Hsz & Hbe).
+  assert (Ha : ealign x = base_align b) by (unfold ealign; now rewrite Eb).
+  assert (Hap : 0 < ealign x) by (rewrite Ha; apply base_align_pos).
+  assert (Hr : uoff (snd r) <= len (ubuf (snd r))) by (rewrite Er; cbn [set_off ubuf uoff]; lia).
+  destruct (u_align_cases (ealign x) (snd r) Hap Hr) as [E2 | E2]; rewrite E2 in H; cbn [bind] in H; [|discriminate].
+  rewrite Er in H. cbn [set_off ubuf uoff] in H. fold start in H.
+  destruct (N.eqb_spec (n mod ealign x) 0) as [Hm|]; cbn [negb] in H; [|discriminate].
+  unfold remainder_len in H. cbn [set_off ubuf uoff] in H.
+  destruct (N.ltb_spec (len (ubuf c) - start) n) as [|Hrem]; [discriminate|].
+  rewrite Eb in H. injection H as <- <-. cbn [set_off uoff].
+  assert (Hst : start <= len (ubuf c)).
+  { pose proof (u_align_moved (ealign x) (snd r) Hr) as G. rewrite E2 in G. destruct G as [_ G]. rewrite Er in G.
+    cbn [set_off ubuf uoff] in G. fold start in G. lia. }
+  split; [exact Hn|]. split; [exact Hm|]. split; [reflexivity|]. split; [lia|].
+  exists (chunks b (base_size b) (S (N.to_nat n)) (slice (ubuf c) start n)). split; [rewrite Eb; reflexivity|].
+  (* the number of elements *)
+  assert (Hk : (0 < base_size b)%nat) by (destruct b; cbn in *; try discriminate; lia).
+  assert (Ek : ealign x = N.of_nat (base_size b)) by (rewrite Ha, Hsz; reflexivity).
+  match goal with |- len (chunks _ _ _ ?l) = _ => set (sl := l) end.
+  assert (Lsl : len sl = n) by (subst sl; unfold slice; rewrite len_firstnN, len_skipnN; lia).
+  apply N.mod_divide in Hm; [|lia]. destruct Hm as [q Hq].
+  assert (Ll : length sl = (N.to_nat q * base_size b)%nat) by (unfold len in Lsl; rewrite Ek in Hq; lia).
+  unfold len. rewrite (chunks_length b (base_size b) Hk (S (N.to_nat n)) sl (N.to_nat q)); [|unfold len in Lsl; lia|exact Ll].
+  rewrite Hq, N.div_mul by lia. lia.
 Qed.
